@@ -8,8 +8,9 @@
      ratio.go, singlefloat.go, doublefloat.go, character.go, string.go, symbol.go, list.go, tail.go, vector.go,
      true.go, object.go (ObjectEqual), pkg/cl/sxhash.go + the Simplify methods + ojg's SEN writer,
      hash-table.go and pkg/cl/{gethash,remhash,clrhash,maphash,hash-table-count}.go.                        *)
-From Coq Require Import ZArith NArith List Bool String Ascii.
+From Coq Require Import ZArith NArith List Bool String Ascii QArith Qreduction.
 Import ListNotations.
+Close Scope Q_scope.
 Open Scope Z_scope.
 Open Scope list_scope.
 
@@ -98,7 +99,8 @@ Definition bitlen (z : Z) : Z := if z =? 0 then 0 else Z.log2 (Z.abs z) + 1.
 Definition via_double (k : fkind) (n d : Z) : Z * Z :=
   match k with FDouble => rne 53 n d | FSingle => rne_dy 24 (rne 53 n d) end.
 
-(* same (pkg/cl/same.go) after NormalizeNumber; only ever called on two numbers *)
+(* same (pkg/cl/same.go): bignum / ratio pairs by exact value (asRat), the others after NormalizeNumber; only
+   ever called on two numbers *)
 Definition same_m (x y : obj) : bool :=
   match x, y with
   | Fix a, Fix b => a =? b
@@ -112,14 +114,11 @@ Definition same_m (x y : obj) : bool :=
   | Big a, Fix b => a =? b
   | Big a, Flt k m e => dy_eqb (via_double k a 1) (m, e)
   | Big a, Big b => a =? b
-  | Big a, Rat n d =>
-      if int64_ok a then a * d =? n                                (* big.NewRat(a.Int64(), 1) *)
-      else dy_eqb (a, 0) (rne 53 n d)                              (* both to long-float; the ratio through float64 *)
+  | Big a, Rat n d => a * d =? n                                   (* asRat: big.Rat.Cmp, exact (repair C16-11) *)
   | Rat n d, Fix b => n =? b * d
   | Rat n d, Flt k m e => dy_eqb (via_double k n d) (m, e)
-  | Rat n d, Big b =>
-      if int64_ok b then n =? b * d
-      else dy_eqb (rne (Z.max (bitlen b) 64) n d) (b, 0)           (* z0.SetPrec(z.Prec()).SetRat *)
+  | Rat n d, Big b => n =? b * d                                   (* asRat: exact (repair C16-11; before it both went to
+                                                                      long-floats of an order-dependent precision) *)
   | Rat n d, Rat n' d' => n * d' =? n' * d
   | _, _ => false
   end.
@@ -249,7 +248,7 @@ Fixpoint equalp_s (x y : obj) {struct x} : bool :=
 Definition equalp_m (a b : ref) : bool := eq_m a b || equalp_s (r_obj a) (r_obj b).
 
 (* ------------------------------------------------------------------------------------------------ *)
-(* 6. sxhash: sum of (byte & 0xdf) over the SEN text of Simplify(object)                               *)
+(* 6. sxhash: sum of (byte & 0xdf) over the SEN text of hashData(object)                               *)
 
 (* ojg v1.27.0 string.go senMap, rows 0x20..0x7f (o: plain, 0: plain but not first, x: forces quotes,
    h: html, others: escaped) *)
@@ -306,45 +305,77 @@ Definition dec_cps (z : Z) : list N :=
   | Decimal.Neg u => 45%N :: uint_cps u
   end.
 
-Definition opt_add (a b : option N) : option N :=
-  match a, b with Some x, Some y => Some (x + y)%N | _, _ => None end.
+(* hashData (sxhash.go, repairs C16-9 and C16-10) builds the data the SEN writer gets:
+   - a string or symbol rune by rune through foldRune, the lowest rune of the unicode.SimpleFold orbit: on the
+     modelled alphabet that is the upper-case letter (K for k and KELVIN SIGN, S for s and LONG S);
+   - a real number as float64(float32(RealValue())): the value rounded to double and then to single precision;
+   - lists, dotted tails and vectors element by element; everything else is Simplify()d (a character is the
+     string of that character, not folded). *)
+Definition cfold (c : N) : N :=
+  let f := fold c in if ((97 <=? f) && (f <=? 122))%N then (f - 32)%N else f.
 
-(* the masked byte sum of the SEN text of one object; None = not modelled (floats and the ratios that are
-   exactly a float64, whose text is strconv's shortest float formatting, and strings with escaped characters) *)
-Fixpoint hsum (x : obj) : option N :=
+(* the value of a dyadic as a rational *)
+Definition dyQ (x : Z * Z) : Q :=
+  let '(m, e) := x in if 0 <=? e then inject_Z (m * 2 ^ e) else Qmake m (Z.to_pos (2 ^ (- e))).
+(* the value of a number *)
+Definition num_val (x : obj) : Q :=
   match x with
-  | Nil => Some (mask_sum [110; 117; 108; 108])%N                       (* null *)
-  | Tru => Some (mask_sum [116; 114; 117; 101])%N                       (* true *)
-  | Fix z => Some (mask_sum (dec_cps z))
-  | Big z => if int64_ok z then Some (mask_sum (dec_cps z)) else hash_string (dec_cps z)
-  | Rat n d =>                                                           (* Ratio.Simplify *)
-      if dy_is_rat (rne 53 n d) n d then None                             (* exactly a float64: strconv's text *)
-      else hash_string (dec_cps n ++ 47%N :: dec_cps d)                   (* the printed n/d as a string *)
-  | Flt _ _ _ => None
-  | Chr c => hash_string [c]
-  | Str s => hash_string s
-  | Sym s => hash_string s
+  | Fix z | Big z => inject_Z z
+  | Rat n d => Qmake n (Z.to_pos d)
+  | Flt _ m e => dyQ (m, e)
+  | _ => inject_Z 0
+  end.
+(* rounding to p bits is a function of the value: it is given the value in lowest terms *)
+Definition roundQ (p : Z) (q : Q) : Q := let r := Qred q in Qred (dyQ (rne p (Qnum r) (Zpos (Qden r)))).
+(* float64(float32(RealValue())): RealValue rounds a bignum or ratio to a double (a fixnum converts the same way,
+   a float is its own value), the conversion to float32 rounds to 24 bits; in lowest terms *)
+Definition hcanon (x : obj) : Q := roundQ 24 (roundQ 53 (num_val x)).
+
+(* a code: the masked byte sum of the text that is modelled, and the canonical values of the numbers whose text
+   (strconv's shortest formatting of a float64) is not: the real code adds a function of each such value *)
+Record hcode := mk_hcode { h_sum : N; h_nums : list Q }.
+Definition hc_add (a b : hcode) : hcode := mk_hcode (h_sum a + h_sum b)%N (h_nums a ++ h_nums b).
+Definition opt_add (a b : option hcode) : option hcode :=
+  match a, b with Some x, Some y => Some (hc_add x y) | _, _ => None end.
+Definition hc_text (o : option N) : option hcode := option_map (fun n => mk_hcode n []) o.
+(* a float64 that is an integer below 10^6 in magnitude is written as its decimal digits *)
+Definition hash_num (q : Q) : hcode :=
+  if (Zpos (Qden q) =? 1) && (Z.abs (Qnum q) <? 1000000) then mk_hcode (mask_sum (dec_cps (Qnum q))) []
+  else mk_hcode 0%N [q].
+
+(* the code of one object; None = not modelled (strings with escaped characters) *)
+Fixpoint hsum (x : obj) : option hcode :=
+  match x with
+  | Nil => hc_text (Some (mask_sum [110; 117; 108; 108])%N)             (* null *)
+  | Tru => hc_text (Some (mask_sum [116; 114; 117; 101])%N)             (* true *)
+  | Fix _ | Big _ | Rat _ _ | Flt _ _ _ => Some (hash_num (hcanon x))
+  | Chr c => hc_text (hash_string [c])
+  | Str s => hc_text (hash_string (map cfold s))
+  | Sym s => hc_text (hash_string (map cfold s))
   | Tl v => hsum v
   | Lst xs | Vec xs =>
       (* "[" e1 " " e2 ... "]": '[' & 0xdf = 91, ']' & 0xdf = 93, ' ' & 0xdf = 0 *)
-      opt_add (Some 184%N) ((fix go (l : list obj) : option N :=
-                               match l with [] => Some 0%N | e :: l' => opt_add (hsum e) (go l') end) xs)
+      opt_add (hc_text (Some 184%N))
+              ((fix go (l : list obj) : option hcode :=
+                  match l with [] => hc_text (Some 0%N) | e :: l' => opt_add (hsum e) (go l') end) xs)
   end.
-Definition sxhash_m (x : obj) : option N := hsum x.      (* & 0x7fffffffffffffff never bites below 2^63 *)
+Definition sxhash_m (x : obj) : option hcode := hsum x.   (* & 0x7fffffffffffffff never bites below 2^63 *)
 
 (* ------------------------------------------------------------------------------------------------ *)
 (* 7. The hash table: map[Object]Object                                                              *)
 
-(* Go's == on interface values used as map keys *)
+(* which stored key an operation reaches: Go's == on interface values used as map keys, after HashTable.Key *)
 Inductive gokey :=
 | KNil | KTru | KFix (z : Z) | KFlt (k : fkind) (m e : Z) | KChr (c : N) | KStr (s : list N) | KSym (s : list N)
-| KPtr (kind : N) (word : N)       (* *Bignum 0, *Ratio 1, *Vector 2: pointer identity *)
-| KUnhashable.                     (* slip.List: runtime panic "hash of unhashable type" *)
+| KBig (z : Z) | KRat (n d : Z)     (* *Bignum, *Ratio: Go would compare the pointers; HashTable.Key resolves the key to the
+                                      stored key of the same Go type that is Equal (repair C16-5), so the VALUE decides *)
+| KPtr (kind : N) (word : N)       (* *Vector 2: pointer identity *)
+| KUnhashable.                     (* slip.List: not comparable in Go; HashTable.Key signals a type-error (repair C16-4) *)
 Definition gokey_of (r : ref) : gokey :=
   match r_obj r with
   | Nil => KNil | Tru => KTru | Fix z => KFix z | Flt k m e => KFlt k m e | Chr c => KChr c
   | Str s => KStr s | Sym s => KSym s
-  | Big _ => KPtr 0 (r_word r) | Rat _ _ => KPtr 1 (r_word r) | Vec _ => KPtr 2 (r_word r)
+  | Big z => KBig z | Rat n d => KRat n d | Vec _ => KPtr 2 (r_word r)
   | Lst _ | Tl _ => KUnhashable
   end.
 Definition gokey_eqb (a b : gokey) : bool :=
@@ -354,6 +385,8 @@ Definition gokey_eqb (a b : gokey) : bool :=
   | KFlt k m e, KFlt k' m' e' => fkind_eqb k k' && dy_eqb (m, e) (m', e')
   | KChr x, KChr y => (x =? y)%N
   | KStr x, KStr y | KSym x, KSym y => lN_eqb x y
+  | KBig x, KBig y => x =? y                                   (* Bignum.Equal on a *Bignum: Cmp *)
+  | KRat n d, KRat n' d' => n * d' =? n' * d                   (* Ratio.Equal on a *Ratio: big.Rat.Cmp *)
   | KPtr k w, KPtr k' w' => (k =? k')%N && (w =? w')%N
   | _, _ => false
   end.
@@ -373,7 +406,8 @@ Inductive hobs :=
 | OBool (b : bool)
 | ONum (n : Z)
 | OEntries (es : list (nat * Z))   (* (smallest pool index of a key equal to the stored key, value), as a set *)
-| OFault                     (* host fault: unhashable key *)
+| OTypeErr                   (* a type-error is signalled: the key is not hashable (HashTable.Key, repair C16-4) *)
+| OFault                     (* host fault: only ever OBSERVED (before C16-4: unhashable key); the model never answers it *)
 | OBadKey.                   (* the case is malformed: index outside the pool *)
 
 (* table state: association list, most recent first, one entry per Go key *)
@@ -401,13 +435,13 @@ Section Table.
   Definition t_step (st : tstate) (o : hop) : tstate * hobs :=
     match o with
     | HPut i v => match key_ok i with
-                  | None => (st, OBadKey) | Some false => (st, OFault)
+                  | None => (st, OBadKey) | Some false => (st, OTypeErr)
                   | Some true => (t_put st i v, OVal v) end
     | HGet i => match key_ok i with
-                | None => (st, OBadKey) | Some false => (st, OFault)
+                | None => (st, OBadKey) | Some false => (st, OTypeErr)
                 | Some true => (st, OGet (t_find st i)) end
     | HRem i => match key_ok i with
-                | None => (st, OBadKey) | Some false => (st, OFault)
+                | None => (st, OBadKey) | Some false => (st, OTypeErr)
                 | Some true => (t_del st i, OBool (match t_find st i with Some _ => true | None => false end)) end
     | HClr => ([], OBool true)
     | HCount => (st, ONum (Z.of_nat (List.length st)))
